@@ -39,11 +39,20 @@ def osvDecl (es : List Ev) (q : Nat) : Bool :=
   es.any fun i => i.k = .intro && i.v ≤ q &&
     !(es.any fun c => i.v < c.v && ((c.k = .fixed && c.v ≤ q) || (c.k = .last && c.v < q)))
 
+/-- which range types speak about a package's versions (OSV schema: ECOSYSTEM ranges use the ecosystem's own
+ordering; SEMVER ranges apply to packages whose versions ARE SemVer 2.0 — of the ecosystems deps.dev resolves
+(npm, Maven, PyPI) that is npm only; GIT and unknown types never describe versions). Stated independently of the code. -/
+def matchingType (a : Affected) (r : Range) : Bool :=
+  match r.typ with
+  | .ecosystem => true
+  | .semver => a.eco = 0
+  | .other => false
+
 /-- record level: some affected entry for this very package lists the version or has a range of a
 matching type whose OSV evaluation says "vulnerable" -/
 def specAffected (known : Nat → Bool) (vuln : List Affected) (p : Pkg) : Prop :=
   known p.eco = true ∧ ∃ a ∈ vuln, a.eco = p.eco ∧ a.name = p.name ∧
-    (p.version ∈ a.versions ∨ ∃ r ∈ a.ranges, rangeApplies a r = true ∧ osvRange r.events p.version = true)
+    (p.vid ∈ a.versions ∨ ∃ r ∈ a.ranges, matchingType a r = true ∧ osvRange r.events p.version = true)
 
 end Scalibr.Vulns
 
@@ -51,7 +60,7 @@ namespace Scalibr.Vulns
 /-- executable form of `specAffected` (used by the driver as the oracle of the violation search) -/
 def specAffectedB (known : Nat → Bool) (vuln : List Affected) (p : Pkg) : Bool :=
   known p.eco && vuln.any fun a => a.eco = p.eco && a.name = p.name &&
-    (a.versions.contains p.version || a.ranges.any fun r => rangeApplies a r && osvRange r.events p.version)
+    (a.versions.contains p.vid || a.ranges.any fun r => matchingType a r && osvRange r.events p.version)
 
 theorem specAffectedB_iff (known : Nat → Bool) (vuln : List Affected) (p : Pkg) :
     specAffectedB known vuln p = true ↔ specAffected known vuln p := by
